@@ -87,12 +87,21 @@ def post(s, a, rt):
     if any(l.startswith("R 1 err") or l.startswith("R 0 err") for l in a):
         return fails   # a failing initial activation surfaces in the constructor for the sync twin
     t = twin_of(s)
-    ta, _ = eng.run_impl(t)
-    ta = eng.canon(ta)
+    traw, _ = eng.run_impl(t)
+    ta = eng.canon(traw)
     if strip_ctor(a) != strip_ctor(ta):
         from common import first_diff
         d = first_diff(strip_ctor(a), strip_ctor(ta))
         fails.append(f"C05: async machine and its synchronous twin differ: {d}")
+    elif not any(l.startswith("R ") and " err " in l for l in a):
+        # the callbacks of one group are *started* in the same order as the plain-function machine calls them
+        # (coroutines are scheduled in executor order; how they interleave after their first await is free)
+        def begins(lines):
+            return [tuple(l.split(" ")[1:4]) for l in lines if l.startswith("B ")]
+        if begins(rt.lines) != begins(traw):
+            from common import first_diff
+            d = first_diff([" ".join(x) for x in begins(rt.lines)], [" ".join(x) for x in begins(traw)])
+            fails.append(f"C05: callbacks start in another order than in the plain-function machine: {d}")
     return fails
 
 
